@@ -2,15 +2,22 @@
 
 Case lines
   hist <op>,<op>,...     r:<addrhex>:<ty>:<old>:<new> | s:<k> | t:<d>
-  e2e  <op>,<op>,...     c:<port>:<value> | s:<k> | t:<d>       (ports b (c-typed), i, j (i-typed),
-                         x (rParamF) and a0 a1 a2 (rArrayF "a#3"), f-typed: value = binary32 bit pattern)
+  e2e  <op>,<op>,... <table>     c:<path>:<t><v> | q:<path> | s:<k> | t:<d>
+                         a table with one port of every macro kind of port-sugar.h (E2E_PORTS below = e2e_ports of
+                         harness/h_C15.cpp); t/v: i<dec> c<dec> f<binary32 bits, decimal> S<hex symbol> T F;
+                         <table> is that table for the model driver (the harness has it compiled in)
 Output: one '|'-separated field per operation (format in harness/h_C15.cpp).
 
 spec_check is a reference machine written from the property text only (it
 shares no code with the Coq model): a list of retained events with the time
-of their last recording, a cursor, and for e2e a dictionary of parameter
-values.  It predicts the whole output line; the first differing field names
-the clause of the statement that fails."""
+of their last recording, a cursor, and for e2e a dictionary address -> value
+(the abstract object: what a set message must store is C14's statement -
+clamp to the declared range, symbols to their index -; a change of a numeric
+or option port is one event; after a seek the object is the abstract history
+replayed: state after undoing event k = state before event k).  It predicts
+the whole output line; the first differing field names the clause of the
+statement that fails.  In e2e the type tag of an event is not judged (C14's
+contract), the object and the number of ports the undo messages reach are."""
 
 import struct
 
@@ -22,19 +29,28 @@ WINDOW = 2
 RULE = ("operation histories of length 0..60 over 2..8 addresses (one value type i/f/c per address), values from "
         "32-bit boundary patterns and counters, clock steps 0..4 s (rarely larger), seeks by +-1, +-few, beyond "
         "either end and INT_MIN/INT_MAX; four profiles (mixed, cap-crossing, merge-window, seek-heavy) plus "
-        "end-to-end histories through the repo's rParam/rParamI ports with the undo messages dispatched back.  "
+        "end-to-end histories through one port of every macro kind of port-sugar.h (rParam, rParamI with and without "
+        "range, rParamF with and without range, rToggle, rOption, rArrayF, rArrayI, rArrayT, rArrayOption with "
+        "rOptionsBound, both ports of rParams, rCOptionCb with a counting setter): sets (values at and beyond the "
+        "bounds, option symbols), queries, seeks and clock steps, the undo messages dispatched back; after every "
+        "operation the whole object and the number of ports reached are compared.  "
         "Non-trivial = the history contains a merge, a record after an undo, a record at the 20-event cap or a "
         "clamped seek.")
 TRUSTED = ["harness/h_C15.cpp defines time() in the executable (the library's time(NULL) reads the harness clock), "
            "builds the /undo_change messages with rtosc_amessage, decodes callback messages with rtosc_argument*, "
-           "and for e2e wires rParam/rParamI/rParamF/rArrayF ports to UndoHistory as test/undo-test.cpp does",
+           "and for e2e wires a table of macro-generated ports to UndoHistory as test/undo-test.cpp does "
+           "(reply(\"/undo_change\") -> recordEvent; the history's callback dispatches with recording disabled)",
+           "tools/props/C15.py E2E_PORTS repeats the harness's port table (names, kinds, declared ranges, options) for the "
+           "model driver and the oracle; a difference shows up as a disagreement",
            "tools/props/C15.py reference machine (spec_check) written from the property text"]
 ASSUMPTIONS = ["the clock never goes backwards (advance-clock steps are >= 0)",
                "addresses of any length (up to 300 bytes generated: the set-message buffer of rewind/replay is sized "
                "from the message since the long-address repair)",
                "payloads are 4-byte types (i f c) as in the statement's quantifier",
-               "end-to-end stream: c-, i- and f-typed ports (rParam, rParamI, rParamF, rArrayF); float values exclude NaN and "
-               "-0.0, for which the ports' float comparison and bit equality differ (the final fields are compared as bit patterns)"]
+               "end-to-end stream: float values exclude NaN and -0.0, for which the ports' float comparison and bit equality "
+               "differ (fields are compared as bit patterns); char-backed ports are driven with -128..127, option symbols are "
+               "known ones (C14's quantifier); one spelling per array element (no leading zeros in indices); the port table "
+               "has no two ports answering the same address and no port named undo_change"]
 
 SPECIAL = [0, 1, 2, 7, 127, 128, 255, 0x7fffffff, 0x80000000, 0xffffffff, 0x3f800000, 0xbf800000,
            0x7fc00000, 0x7f800000, 0x00000001, 0x40490fdb]
@@ -103,41 +119,127 @@ def gen_hist(rng, dist):
         dist["hist/with-" + ft] = dist.get("hist/with-" + ft, 0) + 1
     return case
 
-FPORTS = ("x", "a0", "a1", "a2")
+# ---- end-to-end: the port table of harness/h_C15.cpp (one port of every macro kind) ------------
+# name, kind (as in the C14 case lines), N, declared min, max (text as in the macro), options
+E2E_PORTS = [
+    ("b", "P", 0, "0", "127", []),                       # rParam: char, the macro's own 0..127
+    ("i", "I", 0, None, None, []),                       # rParamI
+    ("j", "I", 0, "-100", "100", []),                    # rParamI, rLinear(-100, 100)
+    ("x", "F", 0, None, None, []),                       # rParamF
+    ("y", "F", 0, "-1.5", "2.5", []),                    # rParamF, rLinear(-1.5, 2.5)
+    ("t", "T", 0, None, None, []),                       # rToggle (emits no undo event)
+    ("o", "O", 0, None, None, ["zero", "one", "two", "three"]),      # rOption, rOptions(...)
+    ("a", "AF", 3, None, None, []),                      # rArrayF
+    ("n", "AI", 4, None, None, []),                      # rArrayI (char elements)
+    ("g", "AT", 2, None, None, []),                      # rArrayT (no undo event)
+    ("q", "AO", 3, "0", "3", ["lo", "mid", "hi"]),       # rArrayOption, rOptionsBound(lo, mid, hi): the macro declares
+                                                         # max = the number of options (LAST_IMP), one past the last index
+    ("p", "PA", 4, None, None, []),                      # rParams: "p#4::i" ...
+    ("p", "PS", 4, None, None, []),                      # ... and the alias "p:"
+    ("r", "CO", 0, "0", "2", ["ra", "rb", "rc"]),        # rCOptionCb(getcode, setcode), the setter counts its invocations
+]
+FKINDS = ("F", "AF")
+TAG = {"P": "c", "I": "i", "F": "f", "O": "i", "AF": "f", "AI": "i", "AO": "i", "PA": "i", "CO": "i"}   # the port's own argument type
+ACCEPTS = {"P": "c", "I": "i", "F": "f", "O": "icS", "T": "TF", "AF": "f", "AI": "i", "AT": "TF", "AO": "icS", "PA": "i", "PS": "", "CO": "icS"}
+
+def f32_bits(x):
+    return struct.unpack("<I", struct.pack("<f", x))[0]
+
+def bits_f32(b):
+    return struct.unpack("<f", struct.pack("<I", b))[0]
+
+def table_text():
+    """the table as the model driver reads it (bounds converted: integers, binary32 bit patterns)"""
+    out = []
+    for name, kind, n, mn, mx, opts in E2E_PORTS:
+        conv = (lambda t: "-" if t is None else str(f32_bits(float(t)))) if kind in FKINDS else (lambda t: "-" if t is None else t)
+        out.append("%s:%s:%d:%s:%s:%s" % (name, kind, n, conv(mn), conv(mx),
+                                          "/".join("%d=%s" % (k, sy) for k, sy in enumerate(opts)) or "-"))
+    return ",".join(out)
+
+def elements():
+    """[(path, port)] of every addressable element, in the order the harness prints the object"""
+    out = []
+    for pt in E2E_PORTS:
+        name, kind, n = pt[0], pt[1], pt[2]
+        if kind == "PS":
+            continue
+        if n:
+            out += [("%s%d" % (name, k), pt) for k in range(n)]
+        else:
+            out.append((name, pt))
+    return out
+ELEMS = elements()
+PORT_OF = dict(ELEMS)
+
 #         0   1.0         -1.0        0.5         1.25        2.0         0.1         3.4e38      -3.4e38     inf         -inf        denormal
 FVALS = [0, 0x3f800000, 0xbf800000, 0x3f000000, 0x3fa00000, 0x40000000, 0x3dcccccd, 0x7f7fffff, 0xff7fffff, 0x7f800000, 0xff800000, 1,
-         0x00800000, 0x3f800001]
+         0x00800000, 0x3f800001, 0xbfc00000, 0x40200000, 0x40200001, 0xbfc00001, 0x40400000]
+
+def rand_value(rng, path):
+    name, kind, n, mn, mx, opts = PORT_OF[path]
+    if kind in FKINDS:
+        # binary32 bit patterns; no NaN and no -0.0 (for those the ports' "!=" test and bit equality
+        # differ: a -0.0 over +0.0 is stored without an event, a NaN always records)
+        return "f%d" % (rng.choice(FVALS) if rng.random() < 0.7 else f32_bits(rng.uniform(-10, 10)))
+    if kind in ("T", "AT"):
+        return rng.choice("TF")
+    if kind in ("O", "AO", "CO"):
+        r = rng.random()
+        if r < 0.3:
+            return "S" + hx(rng.choice(opts))
+        return "%s%d" % (rng.choice("iic"), rng.randint(-1, len(opts)) if rng.random() < 0.8 else rng.choice([-2147483648, 2147483647, 100]))
+    if kind == "P":
+        return "c%d" % (rng.randint(0, 5) if rng.random() < 0.5 else rng.choice([-128, -1, 0, 1, 64, 126, 127, rng.randint(-128, 127)]))
+    if kind in ("AI", "PA"):
+        return "i%d" % (rng.randint(0, 5) if rng.random() < 0.5 else rng.choice([-128, -1, 127, rng.randint(-128, 127)]))
+    # I
+    if rng.random() < 0.5:
+        return "i%d" % rng.randint(0, 5)
+    return "i%d" % rng.choice([-1, -2147483648, 2147483647, -100, 100, -101, 101, rng.randint(-1000, 1000)])
 
 def gen_e2e(rng, dist):
     n = rng.choice([1, 2, 3, 5, 8, 13, 21, 25, 30, 45, 60, rng.randint(0, 60)])
-    ports = rng.choice([["b", "i"], ["b", "i", "j"], ["i", "j"], ["b"], ["x", "a0", "a1"], ["x", "i"],
-                        ["x", "a0", "a1", "a2", "b"], ["a2", "x"], ["x"]])
+    paths = [e[0] for e in ELEMS]
+    r = rng.random()
+    if r < 0.3:
+        ports = paths                                           # every port kind in one history
+    elif r < 0.5:
+        ports = [rng.choice(paths)]
+    else:
+        ports = rng.sample(paths, rng.randint(2, 6))
     ops = []
     spaced = rng.random() < 0.35        # changes more than 2 s apart: no merging, the cap is reached
     if spaced:
         n = rng.choice([30, 45, 50, 60])
+    if ports is paths and rng.random() < 0.5:
+        # first a change through every port, in random order, more than 2 s apart or not
+        for p in rng.sample(paths, len(paths)):
+            ops.append("c:%s:%s" % (p, rand_value(rng, p)))
+            if spaced:
+                ops.append("t:3")
+        n += len(ops)
     while len(ops) < n:
         x = rng.random()
         if x < (0.8 if spaced else 0.55):
             p = rng.choice(ports)
-            if p in FPORTS:
-                # binary32 bit patterns; no NaN and no -0.0 (for those the ports' "!=" test and bit
-                # equality differ: a -0.0 over +0.0 is stored without an event, a NaN always records)
-                v = rng.choice(FVALS) if rng.random() < 0.7 else struct.unpack("<I", struct.pack("<f", rng.uniform(-10, 10)))[0]
-            else:
-                v = rng.randint(0, 5) if rng.random() < 0.5 else (rng.randint(0, 120) if p == "b" else
-                                                                  rng.choice([-1, -2147483648, 2147483647, rng.randint(-1000, 1000)]))
-            ops.append("c:%s:%d" % (p, v))
+            ops.append("c:%s:%s" % (p, rand_value(rng, p)))
             if spaced and rng.random() < 0.6:
                 ops.append("t:3")
+        elif x < 0.58:
+            ops.append("q:%s" % rng.choice(ports + ["p"]))
         elif x < 0.75:
             ops.append("t:%d" % rng.choice([0, 1, 1, 2, 2, 3, 3, 4, 50]))
         else:
             ops.append("s:%d" % rng.choice([-1, -1, 1, 1, -2, 2, -3, 3, 0, -21, 21, -99, 99, rng.randint(-25, 25)]))
     if rng.random() < 0.7:
         ops += ["s:-99", "s:99"] if rng.random() < 0.7 else ["s:99", "s:-99"]
-    case = "e2e " + (",".join(ops) if ops else "-")
+    case = "e2e " + (",".join(ops) if ops else "-") + " " + table_text()
     dist["e2e"] = dist.get("e2e", 0) + 1
+    for o in ops:
+        if o[0] == "c":
+            k = "e2e/kind=" + PORT_OF[o.split(":")[1]][1]
+            dist[k] = dist.get(k, 0) + 1
     for ft in predict(case)[1]:
         dist["e2e/with-" + ft] = dist.get("e2e/with-" + ft, 0) + 1
     return case
@@ -205,36 +307,81 @@ class Ref:
         return "p=%d n=%d h=%s" % (self.pos, len(self.ev), ";".join(
             "%s/%s/%d/%d" % (e["a"], e["ty"], e["old"], e["new"]) for e in self.ev))
 
-def s32(v):
-    return v - (1 << 32) if v >= (1 << 31) else v
+def u32(v):
+    return v & 0xffffffff
+
+def stored_value(pt, tv):
+    """what a set message must store (C14's statement: the incoming value clamped to the declared range,
+    option symbols translated to their index); floats as bit patterns"""
+    name, kind, n, mn, mx, opts = pt
+    t, v = tv[0], tv[1:]
+    if kind in ("T", "AT"):
+        return 1 if t == "T" else 0
+    if kind in FKINDS:
+        b = int(v)
+        if mn is not None and bits_f32(b) < bits_f32(f32_bits(float(mn))):
+            b = f32_bits(float(mn))
+        if mx is not None and bits_f32(b) > bits_f32(f32_bits(float(mx))):
+            b = f32_bits(float(mx))
+        return b
+    if t == "S":
+        return opts.index(bytes.fromhex(v).decode())
+    x = int(v)
+    if mn is not None:
+        x = max(x, int(mn))
+    if mx is not None:
+        x = min(x, int(mx))
+    return x
+
+def show_app(app):
+    out = []
+    for path, pt in ELEMS:
+        out.append(str(app[hx("/" + path)]))
+        if pt[1] == "CO":
+            out.append(str(app["sets:" + hx("/" + path)]))       # rCOptionCb: setcode runs once per set message
+    return ",".join(out)
 
 def predict(case):
     """-> (list of (clause, expected field)), features, in_spec_domain"""
     f = case.split(" ")
     kind, ops = f[0], ([] if f[1] == "-" else f[1].split(","))
     m = Ref()
-    app = {"2f62": 0, "2f69": 0, "2f6a": 0, hx("/x"): 0, hx("/a0"): 0, hx("/a1"): 0, hx("/a2"): 0}
+    # e2e: the abstract object, address -> value (signed integers, floats as bit patterns, toggles 0/1)
+    app = {hx("/" + path): 0 for path, pt in ELEMS}
+    app.update({"sets:" + hx("/" + path): 0 for path, pt in ELEMS if pt[1] == "CO"})
     before = {}     # e2e ghost: value of each parameter before its oldest retained change
     out = []
     ok = True
     for o in ops:
         p = o.split(":")
-        tail = ""
+        hits = 0
         if p[0] == "r":
             cl = m.record(p[1], p[2], int(p[3]), int(p[4]))
             fld = m.show()
         elif p[0] == "c":
-            a, ty, v = hx("/" + p[1]), ("c" if p[1] == "b" else "f" if p[1] in FPORTS else "i"), int(p[2]) & 0xffffffff
+            pt = PORT_OF[p[1]]
+            a, v = hx("/" + p[1]), stored_value(pt, p[2])
             cl = "record"
-            if app[a] != v:
-                cl = m.record(a, ty, app[a], v)
-                app[a] = v
+            hits = 1
+            # "exactly one undo event ... if and only if the stored value changed" - numeric and option ports
+            if app[a] != v and pt[1] in TAG:
+                cl = m.record(a, TAG[pt[1]], u32(app[a]), u32(v))
+                m.feat.add("kind-" + pt[1])
+            app[a] = v
+            if "sets:" + a in app:
+                app["sets:" + a] += 1
             fld = m.show()
+        elif p[0] == "q":
+            cl, fld, hits = "query", m.show(), 1
         elif p[0] == "s":
             cl, ms = m.seek(int(p[1]))
             for a, ty, v in ms:
                 if kind == "e2e":
-                    app[a] = v
+                    # the message sets its address to the event's old / new value
+                    app[a] = v - (1 << 32) if (ty != "f" and v >= (1 << 31)) else v
+                    if "sets:" + a in app:
+                        app["sets:" + a] += 1
+                    hits += 1
             fld = "m=%s p=%d n=%d" % (";".join("%s/%s/%d" % x for x in ms), m.pos, len(m.ev))
             if kind == "e2e":
                 # "undoing everything retained returns every touched parameter to the value it had
@@ -243,14 +390,14 @@ def predict(case):
                     for e in reversed(m.ev):
                         before[e["a"]] = e["old"]
                     for a, v in before.items():
-                        if app[a] != v:
+                        if u32(app[a]) != v:
                             cl = "INTERNAL-undo-all"
                 if m.pos == len(m.ev):
                     latest = {}
                     for e in m.ev:
                         latest[e["a"]] = e["new"]
                     for a, v in latest.items():
-                        if app[a] != v:
+                        if u32(app[a]) != v:
                             cl = "INTERNAL-redo-all"
                 before = {}
         elif p[0] == "t":
@@ -259,10 +406,17 @@ def predict(case):
         else:
             cl, fld = "bad", "BADOP"
         if kind == "e2e":
-            fld += " a=%d,%d,%d,%d,%d,%d,%d" % (s32(app["2f62"]), s32(app["2f69"]), s32(app["2f6a"]), app[hx("/x")],
-                                                app[hx("/a0")], app[hx("/a1")], app[hx("/a2")])
+            fld += " hit=%d a=%s" % (hits, show_app(app))
         out.append((cl, fld))
     return out, m.feat, ok
+
+import re
+_TAGS = re.compile(r"/[ifc]{1,2}/")
+
+def no_tags(field):
+    """e2e: which type tag a port puts on its event is C14's contract (the port's own argument type);
+    here the event's address and values and what the seeks do to the object are judged"""
+    return _TAGS.sub("/_/", field)
 
 def spec_check(case, impl):
     exp, feat, ok = predict(case)
@@ -270,6 +424,7 @@ def spec_check(case, impl):
         return None
     if impl.startswith("CRASH") or impl == "NOOUT":
         return "crash: " + impl[:300]
+    e2e = case.startswith("e2e")
     got = impl.split("|") if exp else []
     if not exp:
         return None if impl == "" else "empty-history: output %r" % impl
@@ -278,6 +433,14 @@ def spec_check(case, impl):
     for i, ((cl, e), g) in enumerate(zip(exp, got)):
         if cl.startswith("INTERNAL"):
             return "%s: reference machine inconsistent at op %d" % (cl, i)
+        if e2e:
+            e, g = no_tags(e), no_tags(g)
+            if e != g:
+                eh, _, ea = e.partition(" hit=")
+                gh, _, ga = g.partition(" hit=")
+                if eh == gh:
+                    return ("%s-object: operation %d: object / ports reached after the operation hit=%s, the abstract history "
+                            "requires hit=%s" % (cl, i, ga[:300], ea[:300]))
         if e != g:
             return "%s: operation %d: implementation %s, the statement requires %s" % (cl, i, g[:400], e[:400])
     return None
@@ -317,7 +480,12 @@ LEVEL_TEXT = ("For every operation history (unbounded length, any addresses that
               "clock steps) the model's seeks emit exactly the old values newest-first / new values oldest-first, clamp at "
               "both ends, a record discards the undone tail, keeps the 20 most recent events, and merges into the one "
               "retained event of the same address recorded at most 2 s earlier (first old, last new); the end-to-end "
-              "chain invariant gives undo-all / redo-all.  The model is tied to the code on every run.")
+              "chain invariant gives undo-all / redo-all.  For every table of C14's port models without shared addresses "
+              "and every history of set messages / seeks / clock steps the model runs, every undo message of a seek reaches "
+              "its port and the fields of the ports are the abstract store with the messages applied (C15_ports_seek), so "
+              "undo-all / redo-all hold of the fields (C15_ports_undo_all); the link is C14_undo_event_replays.  The model "
+              "is tied to the code on every run.")
 LEVEL_NOTE = ("Trusted: Coq kernel, extraction (ExtrOcamlBasic), OCaml driver, harness (incl. its time()), generator and "
-              "the Python reference machine.  The C++ code is modelled by hand (coq/Undo/UndoModel.v) and related to the "
+              "the Python reference machine.  The C++ code is modelled by hand (coq/Undo/UndoModel.v, coq/Undo/UndoPortsModel.v on "
+              "top of coq/Ports/SugarModel.v) and related to the "
               "model only by the correspondence run.  The model follows the code after the D13 repair.")
